@@ -820,3 +820,13 @@ impl<Item, Err, O: Observer<Item, Err>> Observer<Item, Err> for ClosesSharedMult
   fn complete(self) { self.observer.complete() }
   fn is_finished(&self) -> bool { self.observer.is_finished() }
 }
+
+// ---------------------------------------------------------------- C14.R7
+pub struct EagerFinishedSink<T> { sender: UnboundedSender<T>, seen: usize }
+impl<T> Observer<T, ()> for EagerFinishedSink<T> {
+  fn next(&mut self, value: T) { self.seen += 1; let _ = self.sender.unbounded_send(value); }
+  fn error(self, _err: ()) { self.sender.close_channel(); }
+  fn complete(self) { self.sender.close_channel(); }
+  // reports finished after two items although nobody dropped the channel
+  fn is_finished(&self) -> bool { self.sender.is_closed() || self.seen >= 2 }
+}
